@@ -163,7 +163,7 @@ def _wchoice(draw, pairs):
 @st.composite
 def specs(draw, recursive=False, weights=(0.0, 0.25, 0.5, 1.0, 2.0), max_nts=4, max_rules=3, max_edges=4,
           max_dom=3, allow_size0=False, start_arity=(0, 0, 1, 2), p_new_node=0.2, max_extra=2,
-          terminal_in_recursive=True, min_dom=1, max_nodes=6):
+          terminal_in_recursive=True, min_dom=1, max_nodes=6, nt_arities=(0, 1, 1, 2)):
     nlabels = draw(st.integers(1, 3))
     dom_choices = [d for d in range(min_dom, max_dom + 1)]
     weighted = [d for d in dom_choices for _ in range(1 if d == 1 else 3)]
@@ -173,7 +173,7 @@ def specs(draw, recursive=False, weights=(0.0, 0.25, 0.5, 1.0, 2.0), max_nts=4, 
     nnts = draw(st.integers(1, max_nts))
     nts = {}
     for i in range(nnts):
-        ar = draw(st.sampled_from(start_arity)) if i == 0 else draw(st.sampled_from([0, 1, 1, 2]))
+        ar = draw(st.sampled_from(start_arity)) if i == 0 else draw(st.sampled_from(list(nt_arities)))
         nts[f'X{i}' if i else 'S'] = [draw(st.sampled_from(nl_names)) for _ in range(ar)]
     nt_names = list(nts)
     nterms = draw(st.integers(1, 4))
